@@ -321,6 +321,14 @@ def class_shape_corpus(tier, seed):
         shapes = keep + rng.sample(rest, 4)
     out = []
     for name, rs in shapes:
+        out += class_defs(name, rs)
+    return out
+
+
+def class_defs(name, rs):
+    """the four definitions that put the class `rs` on an edge (one edge, four edges) and on a self loop (inner, root)"""
+    out = []
+    if True:
         inside = {b for lo, hi in rs for b in range(lo, hi + 1)}
         outside = [b for b in range(256) if b not in inside]
         cls = _cls_text(rs)
